@@ -630,3 +630,127 @@ func runSidecarKey(c *Ctx) {
 		c.Bad("key/site/none", si.Pos(), "no SidecarPath call found in internal/transfer")
 	}
 }
+
+func init() {
+	Register(&Rule{
+		Name:  "R-PATH-BYTES",
+		Props: []string{"C18"},
+		Min:   1,
+		Doc: "the manifest header round-trips its paths (F36): encoding/json replaces every byte sequence of a string that is not valid UTF-8 by U+FFFD. Every json.Marshal / Encoder.Encode in the live code of internal/transfer whose argument holds manifest.FileItem values " +
+			"is dominated by a successful validity check of the item paths (a repository function that calls unicode/utf8.Valid*), or the path field is not a Go string - otherwise the peer decodes another path than was encoded and two names that differ only in invalid bytes collapse into one",
+		Run: func(c *Ctx) { runPathBytes(c, false) },
+	})
+	Register(&Rule{
+		Name:  "R-PATH-TRANSPARENT",
+		Props: []string{"C03"},
+		Min:   1,
+		Doc: "file names travel byte-exact (F36): a relative path reaches the peer inside the JSON manifest header and, as raw bytes, in FileBegin, and the receiver matches the two by equality; a Go string in JSON cannot carry a name that is not valid UTF-8 (legal on Linux). " +
+			"For every JSON serialisation of manifest.FileItem values in the live transfer code the path field must have a byte-exact representation ([]byte); rejecting such names keeps the header honest (R-PATH-BYTES) but leaves a valid tree untransferable",
+		Run: func(c *Ctx) { runPathBytes(c, true) },
+	})
+}
+
+func runPathBytes(c *Ctx, transparent bool) {
+	p := c.P
+	live := p.LiveFuncs()
+	fi, _ := p.LookupObj("pkg/manifest", "FileItem").(*types.TypeName)
+	if fi == nil {
+		c.MissingAnchor("manifest.FileItem")
+		return
+	}
+	var pathFld *types.Var
+	if st, ok := fi.Type().Underlying().(*types.Struct); ok {
+		for i := 0; i < st.NumFields(); i++ {
+			if st.Field(i).Name() == "RelPath" {
+				pathFld = st.Field(i)
+			}
+		}
+	}
+	if pathFld == nil {
+		c.MissingAnchor("manifest.FileItem.RelPath")
+		return
+	}
+	var holds func(t types.Type, depth int) bool
+	holds = func(t types.Type, depth int) bool {
+		if t == nil || depth > 6 {
+			return false
+		}
+		t = types.Unalias(t)
+		if types.Identical(t, fi.Type()) {
+			return true
+		}
+		switch u := t.Underlying().(type) {
+		case *types.Pointer:
+			return holds(u.Elem(), depth+1)
+		case *types.Slice:
+			return holds(u.Elem(), depth+1)
+		case *types.Array:
+			return holds(u.Elem(), depth+1)
+		case *types.Map:
+			return holds(u.Elem(), depth+1)
+		case *types.Struct:
+			for i := 0; i < u.NumFields(); i++ {
+				if holds(u.Field(i).Type(), depth+1) {
+					return true
+				}
+			}
+		}
+		return false
+	}
+	isString := func(t types.Type) bool {
+		b, ok := t.Underlying().(*types.Basic)
+		return ok && b.Kind() == types.String
+	}
+	// validators: repository functions that call unicode/utf8.Valid* / ValidString
+	validators := map[*FuncInfo]bool{}
+	for _, f := range p.Funcs() {
+		info := f.Info()
+		InspectNoLits(f.Body, func(m ast.Node) bool {
+			if call, ok := m.(*ast.CallExpr); ok {
+				if fn := Callee(info, call); fn != nil && fn.Pkg() != nil && fn.Pkg().Path() == "unicode/utf8" && strings.HasPrefix(fn.Name(), "Valid") {
+					validators[f.Root()] = true
+				}
+			}
+			return true
+		})
+	}
+	spec := &PassSpec{Name: "utf8-valid", Vias: []Via{{Call: func(f *FuncInfo, call *ast.CallExpr) (string, bool) {
+		if g := p.CalleeInfo(f.Info(), call); g != nil && validators[g] {
+			return "valid", true
+		}
+		return "", false
+	}}}}
+	n := 0
+	for _, f := range p.FuncsIn("internal/transfer") {
+		if !live[f] || strings.HasSuffix(p.Fset.Position(f.Pos()).Filename, "_test.go") {
+			continue
+		}
+		info := f.Info()
+		k := 0
+		f.CFG().Calls(func(r NodeRef, call *ast.CallExpr) {
+			fn := Callee(info, call)
+			if fn == nil || fn.Pkg() == nil || fn.Pkg().Path() != "encoding/json" || !(fn.Name() == "Marshal" || fn.Name() == "Encode" || fn.Name() == "MarshalIndent") || len(call.Args) < 1 {
+				return
+			}
+			if !holds(info.TypeOf(call.Args[0]), 0) {
+				return
+			}
+			n++
+			k++
+			key := fmt.Sprintf("json/%s#%d", f.Name, k)
+			if !isString(pathFld.Type()) {
+				c.OK(key, call.Pos(), "the path field is not a Go string: encoding/json carries its bytes exactly")
+				return
+			}
+			if transparent {
+				c.Bad(key, call.Pos(), "relative paths are carried as JSON strings in the manifest header and as raw bytes in FileBegin; a name that is not valid UTF-8 (legal on Linux, e.g. Latin-1 `caf\\xe9.txt`) cannot be carried by the header, so a valid tree holding such a name cannot be transferred (before F36's partial repair: 'manifest mismatch: unexpected file' on the receiver; after it: refused by the sender)")
+				return
+			}
+			c.Check(spec.Passed(f, r, "valid"), key, call.Pos(), "paths are checked to be valid UTF-8 before they are serialised as JSON strings",
+				"the manifest header is serialised with encoding/json, which silently replaces every byte of a path that is not valid UTF-8 by U+FFFD, and nothing rejects such a path first: the peer decodes another path than was encoded (`caf\\xe9.txt` -> `caf\\ufffd.txt`), two names that differ only in such bytes collapse into one")
+		})
+	}
+	if n == 0 {
+		c.Bad("json/none", token.NoPos, "found no JSON serialisation of the manifest in the live transfer code")
+	}
+}
